@@ -22,7 +22,7 @@ g++ -std=c++17 -O1 -g -pthread $SAN -I"$WT/include" "$OUT/demo.cpp" -o "$WT/demo
 if ! git -C "$WT" apply "$OUT/patch.diff"; then echo "SEED $NAME: patch does not apply"; exit 2; fi
 g++ -std=c++17 -O1 -g -pthread $SAN -I"$WT/include" "$OUT/demo.cpp" -o "$WT/demo_patched" 2>"$WT/demo_patched.err"
 ( cd "$WT" && timeout 120 ./demo_patched >"$WT/demo_patched.out" 2>&1 ); RC_PATCHED=$?
-SUITE=$(bash /verif/tools/run_baseline.sh "$WT" 2>&1 | tail -1)
+SUITE=$(bash /verif/tools/run_baseline.sh "$WT" 2>&1 | grep -v "^[[:space:]]*$" | tail -1)
 echo "SEED $NAME: demo clean rc=$RC_CLEAN ($(tail -1 "$WT/demo_clean.out" | cut -c1-60)) | demo patched rc=$RC_PATCHED ($(tail -1 "$WT/demo_patched.out" | cut -c1-60)) | suite: $SUITE"
 # run the checks against the patched scratch worktree (VERIF_REPO: same effect as applying the patch to /repo and
 # undoing it afterwards, without disturbing other work that builds from /repo meanwhile)
